@@ -201,6 +201,117 @@ def custom_vector_purity(chk, work):
                branches={'in-process': (reps + 1) * len(cfgs), 'processes': len(seeds) * len(cfgs)})
 
 
+CHILD_ENV_RUN = r"""
+import sys, hashlib, io, contextlib
+sys.path.insert(0, os.environ["UWG_REPO_"])
+sys.path.insert(0, os.environ["HARNESS_"])
+import uwgutil as U
+cfg = eval(os.environ["CFG_"])
+with contextlib.redirect_stdout(io.StringIO()):
+    m = U.new_model(outdir=os.environ["OUT_"], outname=os.environ["OUTNAME_"], **cfg)
+    m.generate(); m.simulate(); m.write_epw()
+print("RESULT", hashlib.sha256(open(m.new_epw_path, "rb").read()).hexdigest(),
+      hashlib.sha256(repr(U.records(m)).encode()).hexdigest(), m.simTime.timeInitial, m.simTime.julian)
+"""
+
+
+def first_difference(got, ref):
+    """where two files differ: lengths, first differing offset, the lines there"""
+    n = next((i for i in range(min(len(got), len(ref))) if got[i] != ref[i]), min(len(got), len(ref)))
+    line = got.count(b'\n', 0, n) + 1
+
+    def around(b):
+        a = b.rfind(b'\n', 0, n) + 1
+        e = b.find(b'\n', n)
+        return b[a:e if e >= 0 else len(b)][:160].decode('utf-8', 'replace')
+    return {'bytes written': len(got), 'bytes of the reference': len(ref), 'first differing byte': n, 'line': line,
+            'line there (this run)': around(got), 'line there (reference)': around(ref)}
+
+
+def environment_purity(chk, work):
+    """(f) the environment of the process as a hidden input. A fresh model with the same parameters and the same rural
+    file must write the same bytes and hold the same records whatever the wall clock says (leap years, 29 February,
+    the epoch, 2100), whatever the time zone, working directory, umask, locale and hash seed are, and whatever is
+    already stored under the output name (nothing, an empty file, a shorter one, a longer morphed file of another
+    model, much longer text, binary data, the model's own earlier output)."""
+    import t1_util as T1
+    rng = chk.rng
+    quick = chk.tier == 'quick'
+    # start dates from March on / crossing the end of February: where a calendar laid out on the current year shows
+    cfgs = [dict(nday=1, dtsim=300, month=rng.choice([3, 5, 8, 11]), day=rng.randint(1, 28), sensanth=rng.choice([5, 20]))]
+    if not quick:
+        cfgs += [dict(nday=2, dtsim=300, month=2, day=28), dict(nday=1, dtsim=200, month=12, day=31),
+                 dict(nday=1, dtsim=300, month=1, day=rng.randint(1, 28))]
+    bad = nruns = 0
+    kinds = {}
+    for ci, cfg in enumerate(cfgs):
+        d0 = os.path.join(work, 'env%d_ref' % ci)
+        os.makedirs(d0, exist_ok=True)
+        ref = run_full(cfg, d0, 'ref.epw')
+        ref_bytes = open(os.path.join(d0, 'ref.epw'), 'rb').read()
+        # a longer morphed file written by ANOTHER model (other canyon, more decimals)
+        run_full(dict(cfg, epw_precision=3, bldheight=25, sensanth=12), d0, 'other.epw')
+        other_bytes = open(os.path.join(d0, 'other.epw'), 'rb').read()
+        members = T1.env_members(rng, work, 8 if quick else 24)
+        procs = []
+        for k, mb in enumerate(members):
+            d = os.path.join(work, 'env%d_%d' % (ci, k))
+            os.makedirs(d, exist_ok=True)
+            T1.prepare_output(os.path.join(d, 'morphed.epw'), mb.get('pre'), ref_bytes, other_bytes)
+            env = T1.env_of(mb, dict(os.environ, UWG_REPO_=core.REPO, UWG_REPO=core.REPO,
+                                     HARNESS_=os.path.join(core.VERIF, 'harness'), CFG_=repr(cfg), OUT_=d,
+                                     OUTNAME_='morphed.epw', PYTHONDONTWRITEBYTECODE='1'))
+            procs.append((mb, d, subprocess.Popen([sys.executable, '-c', T1.ENV_PRELUDE + CHILD_ENV_RUN],
+                                                  stdout=subprocess.PIPE, stderr=subprocess.PIPE, text=True, env=env)))
+            if len(procs) % 8 == 0:
+                for _, _, p in procs[-8:]:
+                    p.wait(timeout=900)
+        for mb, d, p in procs:
+            so, se = p.communicate(timeout=900)
+            nruns += 1
+            for key in ('clock', 'tz', 'cwd', 'umask', 'locale', 'hashseed', 'pre'):
+                if mb.get(key):
+                    kinds[key] = kinds.get(key, 0) + 1
+            line = [l for l in so.split('\n') if l.startswith('RESULT ')]
+            envdesc = {k: (v[0] if k == 'clock' else v) for k, v in mb.items() if k != 'label'}
+            case = {'params': cfg, 'environment': envdesc,
+                    'pre-existing content of the output name': mb.get('pre', 'absent'),
+                    'how': 'child process: t1_util.ENV_PRELUDE (fake wall clock installed in time / datetime before '
+                           'the package is imported; TZ, cwd, umask, locale, PYTHONHASHSEED) + new_model; generate; '
+                           'simulate; write_epw'}
+            if p.returncode != 0 or not line:
+                if 'uwg' + os.sep in se and 'Traceback' in se:
+                    bad += 1
+                    chk.violation('impl-violation', 'purity: a fresh model fails in another environment (%s)' % mb['label'],
+                                  case=case, observed=se[-600:], expected='the same results as in this process')
+                    continue
+                raise core.Infra('environment child process failed: ' + se[-400:])
+            got = tuple(line[0].split()[1:3])
+            if got != ref:
+                bad += 1
+                if bad <= 3:
+                    what = 'weather file' if got[0] != ref[0] else 'hourly records'
+                    obs = {'sha256(file, records)': got, 'first data row read (timeInitial), start day of year':
+                           line[0].split()[3:5]}
+                    if got[0] != ref[0]:
+                        obs.update(first_difference(open(os.path.join(d, 'morphed.epw'), 'rb').read(), ref_bytes))
+                    chk.violation('impl-violation', 'purity: the %s of a fresh model depends on the environment (%s)'
+                                  % (what, mb['label']), case=case, observed=obs,
+                                  expected={'sha256(file, records)': ref,
+                                            'of': 'the same parameters run in this process (real clock, new output name)'})
+    chk.direct('environment-as-hidden-input(fresh processes)', nruns, nruns,
+               'the same parameters (start dates from March on; thorough: also a window crossing 28 Feb, 31 Dec, a '
+               'January day) and the same rural file run in fresh processes under other environments, against the run '
+               'in this process: wall-clock dates 2028-03-01 / 2028-02-29 / 2032-12-31 23:59 (leap years), 2027, 2024-12-31, '
+               '2000-01-01, 1970-01-02, 2038-01-19, 2100 (fake clock installed in `time` and `datetime` before the '
+               'package is imported); TZ UTC / Pacific/Kiritimati / America/Los_Angeles / Asia/Kolkata / Europe/Berlin '
+               '/ Pacific/Pago_Pago; cwd /, /tmp, a directory with a blank; umask 000 / 022 / 027 / 077; locale C / '
+               'C.UTF-8 / de_DE.UTF-8 / tr_TR.UTF-8 / POSIX; PYTHONHASHSEED values; and what is stored under the '
+               'output name beforehand: nothing, an empty file, a shorter file, a LONGER morphed file of another model '
+               '(epw_precision 3), much longer text, longer binary data, the own earlier output. Written bytes and '
+               'hourly records must be identical in every one', mismatches=bad, branches=kinds)
+
+
 def run_full(cfg, outdir, name):
     m = U.new_model(outdir=outdir, outname=name, **cfg)
     with core.quiet():
@@ -310,5 +421,6 @@ def run(chk):
                'different model, and in fresh processes under different PYTHONHASHSEEDs; written file bytes and '
                'hourly records must be identical', mismatches=bad)
     custom_vector_purity(chk, work)
+    environment_purity(chk, work)
     chk.assumptions.append('CPython, pickle and the OS are trusted; the theorem is about the abstract world '
                            'machine, its worth is the frame check (static scan + dynamic monitor)')
